@@ -19,7 +19,7 @@ import (
 // A probe installed as the first global middleware snapshots the context at
 // entry of every request.
 
-var kindNames = []string{"store", "errors", "abort", "status-write", "replace-resp", "replace-req", "set-handlers", "dynamic", "dynamic2", "notfound", "notallowed", "panic", "redispatch", "nested", "copy", "mutate-params", "dynamic3", "delegate", "hijack", "mutate-novar", "novar", "keep-copy", "panic-status", "mutate-query", "query", "render-fail", "render-ok", "hijack2", "notallowed3"}
+var kindNames = []string{"store", "errors", "abort", "status-write", "replace-resp", "replace-req", "set-handlers", "dynamic", "dynamic2", "notfound", "notallowed", "panic", "redispatch", "nested", "copy", "mutate-params", "dynamic3", "delegate", "hijack", "mutate-novar", "novar", "keep-copy", "panic-status", "mutate-query", "query", "render-fail", "render-ok", "hijack2", "notallowed3", "flush"}
 
 type kindReq struct {
 	method, path string
@@ -63,6 +63,8 @@ var kindReqs = map[string]kindReq{
 	"hijack2":     {"GET", "/hj2"},
 	// a path with exactly three allowed methods, asked with a fourth
 	"notallowed3": {"DELETE", "/tri"},
+	// a streaming handler: writes, flushes, writes again
+	"flush": {"GET", "/fl"},
 }
 
 // kindRenderer is the router's view renderer: it writes a heading, then fails for the view named "bad"
@@ -272,6 +274,11 @@ func newKindRouter(cfg kindCfg) *kindRouter {
 	get("/q", func(c *rux.Context) {
 		c.WriteString(fmt.Sprintf("q:%s token=%s seen=%s", c.QueryValues().Encode(), c.Query("token"), c.Query("seen", "-")))
 	})
+	get("/fl", func(c *rux.Context) {
+		c.WriteString("part1;")
+		c.Resp.(http.Flusher).Flush()
+		c.WriteString("part2")
+	})
 	r.Renderer = kindRenderer{}
 	get("/view/{name}", func(c *rux.Context) {
 		if err := c.Render(200, c.Param("name"), c.Param("name")+"-data"); err != nil {
@@ -365,7 +372,7 @@ func (k *kindRouter) doReq(method, path string, seenCtx map[*rux.Context]bool) k
 			hdr = append(hdr, h+"="+v)
 		}
 	}
-	o.resp = fmt.Sprintf("%d %q %v", rec.Code, rec.Body.String(), hdr)
+	o.resp = fmt.Sprintf("%d %q %v flushed=%v", rec.Code, rec.Body.String(), hdr, rec.Flushed)
 	for _, p := range k.ctxPtrs {
 		if seenCtx != nil {
 			if seenCtx[p] {
